@@ -159,7 +159,7 @@ def gen(repo):
         raise TranslateError("modEpoll(): expected exactly `e.events = ev; ... return ::epoll_ctl(_epollFd, EPOLL_CTL_MOD, fd, &e) == 0;`")
     ui_sites = []
     for fn in ("doSend", "writePending", "readAvail", "driveHandshake", "onSession"):
-        ui_sites.append((fn, len(re.findall(r"\bupdateInterest\s*\(\s*s\s*\)", cxxscan.function_body(esrc, fn)))))
+        ui_sites.append((fn, len(re.findall(r"\bupdateInterest\s*\(\s*s\s*\)", cxxscan.function_body(esrc, fn, signature_contains="SendReq" if fn == "doSend" else "Session *s")))))
     total_sites = len(re.findall(r"\bupdateInterest\s*\(\s*s\s*\)\s*;", esrc))
     if total_sites != sum(n for _, n in ui_sites):
         raise TranslateError("updateInterest(s) is called %d times, %d of them outside doSend/writePending/readAvail/driveHandshake/onSession" % (total_sites, total_sites - sum(n for _, n in ui_sites)))
@@ -167,7 +167,7 @@ def gen(repo):
     # ---- TLS mode and TLS state move together (the model merges them into one field)
     tls_sites = []
     for fn in ("onListener", "doConnect", "driveHandshake"):
-        b = cxxscan.function_body(esrc, fn)
+        b = cxxscan.function_body(esrc, fn, signature_contains={"onListener": "Listener *", "doConnect": "ConnectReq", "driveHandshake": "Session *s"}[fn])
         for m in re.finditer(r"->\s*(tlsMode|tlsState)\s*=\s*(?:TlsMode|TlsState)::(\w+)\s*;", b):
             tls_sites.append("%s:%s=%s" % (fn, m.group(1), m.group(2)))
     n_tls_assign = len(re.findall(r"(?:->|\.)\s*(?:tlsMode|tlsState)\s*=[^=]", esrc))
